@@ -325,6 +325,20 @@ func (c *Ctx) ruleCountingDiscipline(rule string) {
 				strings.HasPrefix(arg(ft.A, 2).String(), "elem(")
 		}}
 		ok, why := o.Requires(inc, verified)
+		if !ok {
+			// search form: i := IndexFunc(candidates, func(k) bool { return sig.Verify(hash, k) }); if i >= 0 { count++ ... }
+			for _, e := range o.AllEdges() {
+				ft := o.EdgeFact(e)
+				if ft == nil || ft.Kind != "cmp" {
+					continue
+				}
+				for _, side := range []*Ex{ft.A, ft.B} {
+					if c.verifySearch(o, side, f) && searchHitCond(side).Match(ft, o) {
+						ok, why = o.Requires(inc, searchHitCond(side))
+					}
+				}
+			}
+		}
 		R.Check(rule, fk, "count <= signature verified", c.P.InstrPos(inc), ok, "a signature is counted only when it verifies over the hash under a candidate key", why)
 		// from the increment to the next signature the matched key is removed from the candidates
 		cut := NewCut()
@@ -333,12 +347,16 @@ func (c *Ctx) ruleCountingDiscipline(rule string) {
 				if call, ok := in.(*ssa.Call); ok && c.P.Describe(call).Name == "slices.Delete" {
 					d := c.P.Describe(call)
 					// Delete(candidates, i, i+1) with i the range index of the inner loop over the candidates
+					hi := o.Of(d.Args[2])
+					plus1 := hi.K == "bin" && hi.S == "+" && hi.Args[0].String() == o.Of(d.Args[1]).String() && isConst(hi.Args[1], "1")
 					if l2 := o.Loops.byIndex[d.Args[1]]; l2 != nil && o.sameValue(l2.RangeOf, d.Args[0]) {
-						hi := o.Of(d.Args[2])
-						if hi.K == "bin" && hi.S == "+" && hi.Args[0].String() == o.Of(d.Args[1]).String() && isConst(hi.Args[1], "1") {
+						if plus1 {
 							// and the result is assigned back to the candidate variable (it feeds the loop-carried value)
 							cut.Barriers[call] = true
 						}
+					} else if ie := o.Of(d.Args[1]); c.verifySearch(o, ie, f) && o.sameValue(ie.Call.Common().Args[0], d.Args[0]) && isPlusOne(o, d.Args[2], d.Args[1]) {
+						// Delete(candidates, i, i+1) with i the hit of the verifying search over those candidates
+						cut.Barriers[call] = true
 					}
 				}
 			}
@@ -351,6 +369,50 @@ func (c *Ctx) ruleCountingDiscipline(rule string) {
 		R.Check(rule, fk, "matched key removed before the next signature", c.P.InstrPos(inc), !reach,
 			"each authorised key is counted at most once: after a match the key is removed from the candidate set unconditionally", why2)
 	}
+}
+
+// unwrapAnyof strips the wrapper of a captured variable with a single possible value.
+func unwrapAnyof(e *Ex) *Ex {
+	for e != nil && e.K == "anyof" && len(e.Args) == 1 {
+		e = e.Args[0]
+	}
+	return e
+}
+
+// isPlusOne: hi is the SSA value lo + 1.
+func isPlusOne(o *Origins, hi, lo ssa.Value) bool {
+	hb, ok := hi.(*ssa.BinOp)
+	return ok && hb.Op.String() == "+" && hb.X == lo && isConst(o.Of(hb.Y), "1")
+}
+
+// verifySearch: e is slices.IndexFunc(candidates, pred) where pred answers, for its parameter k, exactly
+// "the signature verifies over the hash parameter of f under k" (every return of pred is that call).
+func (c *Ctx) verifySearch(o *Origins, e *Ex, f *ssa.Function) bool {
+	if e == nil || e.K != "call" || !strings.HasSuffix(e.S, "slices.IndexFunc") || e.Call == nil || len(e.Call.Common().Args) != 2 {
+		return false
+	}
+	var pred *ssa.Function
+	switch v := e.Call.Common().Args[1].(type) {
+	case *ssa.MakeClosure:
+		pred, _ = v.Fn.(*ssa.Function)
+	case *ssa.Function:
+		pred = v
+	}
+	if pred == nil || len(pred.Params) != 1 || pred.Blocks == nil {
+		return false
+	}
+	po := c.P.OriginsOf(pred)
+	rets := Returns(pred)
+	if len(rets) == 0 {
+		return false
+	}
+	for _, r := range rets {
+		v := po.Of(r.Results[0])
+		if !(isCallSuffix(v, "schnorr.(*Signature).Verify") && exprIs(unwrapAnyof(arg(v, 1)), "P:"+f.Params[0].Name()) && exprIs(unwrapAnyof(arg(v, 2)), "P:"+pred.Params[0].Name())) {
+			return false
+		}
+	}
+	return true
 }
 
 // ruleExistentialScan: R3.
